@@ -130,7 +130,7 @@ class ArgsFormat(object):
         arguments = self.get_arguments(include_base)
 
         if isinstance(name, int):
-            return name < len(arguments)
+            return 0 <= name < len(arguments)
 
         return name in arguments
 
@@ -176,7 +176,7 @@ class ArgsFormat(object):
         if isinstance(name, int):
             arguments = list(self.get_arguments(include_base).values())
 
-            if name >= len(arguments):
+            if not 0 <= name < len(arguments):
                 raise NoSuchArgumentException(name)
         else:
             arguments = self.get_arguments(include_base)
